@@ -263,6 +263,15 @@ impl_serialize_for_struct!(Automaton {
     transitions
 });
 
+/// Verification hook (add-only): runs the real `Automaton::deserialize` on `bytes` and returns
+/// the automaton together with the number of bytes that were not consumed.
+#[cfg(feature = "verif-hooks")]
+pub fn verif_deserialize_automaton(bytes: &[u8]) -> Result<(Automaton, usize), String> {
+    let mut buf = bytes;
+    let automaton = Automaton::deserialize(&mut buf)?;
+    Ok((automaton, buf.len()))
+}
+
 #[cfg(test)]
 mod tests {
     use std::fmt::Debug;
